@@ -11,6 +11,7 @@ CONSTANTS
   DefaultsUntouched = TRUE
   OrderedIteration = TRUE
   SummaryStateless = TRUE
+  WeightsRebuilt = TRUE
 INVARIANT CallOK
 INVARIANT AbstractFunctional
 CONSTRAINT Finished
